@@ -1,2 +1,190 @@
-From Coq Require Import ZArith List Bool Lia.
+(* C15/Proofs.v — every history of the timer model is accepted by the checker of Spec.v,
+   and what acceptance by the checker means. *)
+From Coq Require Import ZArith List Bool Arith Lia Permutation.
 From C15 Require Import Model Spec.
+Import ListNotations.
+Open Scope Z_scope.
+
+(* ---- arithmetic of the re-arm ------------------------------------------------ *)
+Lemma rearm_arith start iv now : 0 < iv ->
+  now + (iv - (now - start) mod iv) = start + ((now - start) / iv + 1) * iv.
+Proof.
+  intros H. pose proof (Z.div_mod (now - start) iv ltac:(lia)) as D.
+  rewrite Z.mul_add_distr_r, Z.mul_1_l. lia.
+Qed.
+
+Lemma rearm_after_now start iv now : 0 < iv ->
+  now < start + ((now - start) / iv + 1) * iv <= now + iv.
+Proof.
+  intros H. rewrite <- rearm_arith by lia.
+  pose proof (Z.mod_pos_bound (now - start) iv H). lia.
+Qed.
+
+Lemma next_due_boundary start iv n t : 0 < iv ->
+  next_due start iv (start + n * iv) t = start + Z.max (n + 1) ((t - start) / iv + 1) * iv.
+Proof.
+  intros H. unfold next_due. destruct (iv =? 0) eqn:E; [apply Z.eqb_eq in E; lia|].
+  replace (start + n * iv - start) with (n * iv) by lia. rewrite Z.div_mul by lia. reflexivity.
+Qed.
+
+(* the next deadline is a boundary, later than the one served and later than the completion time ... *)
+Lemma next_due_later start iv n t : 0 < iv ->
+  let m := Z.max (n + 1) ((t - start) / iv + 1) in
+  next_due start iv (start + n * iv) t = start + m * iv /\ n < m /\ t < start + m * iv.
+Proof.
+  intros H m. rewrite next_due_boundary by lia. fold m. split; [reflexivity|]. split; [lia|].
+  pose proof (rearm_after_now start iv t H) as [A _].
+  assert ((t - start) / iv + 1 <= m) by lia. nia.
+Qed.
+
+(* ... and it is the first such boundary: nothing in between is served (missed boundaries are skipped, none is added) *)
+Lemma next_due_first start iv n t k : 0 < iv ->
+  n < k -> t < start + k * iv -> Z.max (n + 1) ((t - start) / iv + 1) <= k.
+Proof.
+  intros H Hn Ht.
+  assert ((t - start) / iv < k).
+  { apply Z.div_lt_upper_bound; lia. }
+  lia.
+Qed.
+
+(* ---- small helpers ------------------------------------------------------------- *)
+Lemma upd_same {A} (f : nat -> A) i v : upd f i v i = v.
+Proof. unfold upd. rewrite Nat.eqb_refl. reflexivity. Qed.
+
+Lemma upd_other {A} (f : nat -> A) i j v : j <> i -> upd f i v j = f j.
+Proof. intros H. unfold upd. destruct (Nat.eqb j i) eqn:E; [apply Nat.eqb_eq in E; contradiction | reflexivity]. Qed.
+
+Lemma nodup_map_inj {A B} (f : A -> B) (l : list A) a b :
+  NoDup (map f l) -> In a l -> In b l -> f a = f b -> a = b.
+Proof.
+  induction l as [|x l IH]; intros N Ia Ib E; [destruct Ia|].
+  simpl in N. inversion N as [|? ? Hx Hn]; subst.
+  destruct Ia as [->|Ia], Ib as [->|Ib]; auto.
+  - exfalso. apply Hx. rewrite E. apply in_map. exact Ib.
+  - exfalso. apply Hx. rewrite <- E. apply in_map. exact Ia.
+Qed.
+
+Lemma mon_run_app strict res m a b :
+  mon_run strict res m (a ++ b) =
+  match mon_run strict res m a with Some m' => mon_run strict res m' b | None => None end.
+Proof.
+  revert m. induction a as [|e a IH]; intros m; simpl; [reflexivity|].
+  destruct (mon_step strict res m e); [apply IH | reflexivity].
+Qed.
+
+(* ---- the invariant coupling a world with the checker state ------------------------
+   run = Some (i, rid): the callback of timer i is executing, entered from the loop
+   handle rid (already taken off the ready queue). *)
+Definition handles (w : world) : list handle := w_sched w ++ w_ready w.
+
+Record GInv (res : Z) (run : option (nat * nat)) (w : world) (m : mstate) : Prop := mk_GInv {
+  g_cur : m_cur m = option_map fst run;
+  g_clock : m_clock m <= w_now w;
+  g_count : m_count m = w_nt w;
+  g_ids : forall h, In h (handles w) -> (hid h < w_next w)%nat;
+  g_nodup : NoDup (map hid (handles w));
+  g_ver : forall k, m_ver m k = w_bind w k;
+  g_ready : forall h, In h (w_ready w) -> hwhen h - res < w_now w;
+  g_tgt : forall h i, In h (handles w) -> htgt h = TRun i -> (i < w_nt w)%nat;
+  g_owner : forall h i, In h (handles w) -> htgt h = TRun i -> w_canc w (hid h) = false ->
+            t_delegate (w_tm w i) = Some (hid h);
+  g_rid : forall i rid, run = Some (i, rid) ->
+          (rid < w_next w)%nat /\ (i < w_nt w)%nat /\
+          (forall h, In h (handles w) -> hid h <> rid) /\
+          (forall h, In h (handles w) -> htgt h = TRun i -> w_canc w (hid h) = true);
+  g_alive : forall i s iv d, m_st m i = TAlive s iv d ->
+            t_start (w_tm w i) = s /\ t_interval (w_tm w i) = iv /\ 0 <= iv /\
+            (0 < iv -> d = s + t_n (w_tm w i) * iv) /\
+            ((exists h, In h (handles w) /\ htgt h = TRun i /\ w_canc w (hid h) = false /\ hwhen h = d)
+             \/ (exists rid, run = Some (i, rid) /\ t_delegate (w_tm w i) = Some rid));
+  g_dead : forall i, is_alive (m_st m i) = false -> t_delegate (w_tm w i) = None;
+  g_none : forall i, (w_nt w <= i)%nat -> m_st m i = TNone;
+  g_fresh : forall id, (w_next w <= id)%nat -> w_canc w id = false
+}.
+
+Ltac ginv H :=
+  destruct H as [Hcur Hclock Hcount Hids Hnd Hver Hrdy Htgt Hown Hrid Halive Hdead Hnone Hfresh].
+
+(* the checker state may be replaced by a pointwise equal one with an admissible clock *)
+Lemma ginv_ext res run w m m' :
+  GInv res run w m ->
+  m_cur m' = m_cur m -> m_clock m' <= w_now w -> m_count m' = m_count m ->
+  (forall i, m_st m' i = m_st m i) -> (forall k, m_ver m' k = m_ver m k) ->
+  GInv res run w m'.
+Proof.
+  intros H E1 E2 E3 E4 E5. ginv H.
+  constructor; try assumption; try congruence.
+  - intros i s iv d Hs. rewrite E4 in Hs. eauto.
+  - intros i Hs. rewrite E4 in Hs. eauto.
+  - intros i Hi. rewrite E4. eauto.
+Qed.
+
+(* a live delegate is a known handle id *)
+Lemma delegate_known res run w m j id :
+  GInv res run w m -> t_delegate (w_tm w j) = Some id ->
+  exists s iv d, m_st m j = TAlive s iv d /\ (id < w_next w)%nat /\
+    ((exists h, In h (handles w) /\ htgt h = TRun j /\ w_canc w (hid h) = false /\ hwhen h = d /\ hid h = id)
+     \/ (run = Some (j, id))).
+Proof.
+  intros H Hd. ginv H.
+  destruct (m_st m j) as [|s iv d|] eqn:Es.
+  - specialize (Hdead j). rewrite Es in Hdead. specialize (Hdead eq_refl). congruence.
+  - exists s, iv, d. split; [reflexivity|].
+    destruct (Halive j s iv d Es) as (_ & _ & _ & _ & [(h & Hin & Ht & Hc & Hw) | (rid & Hr & Hd')]).
+    + pose proof (Hown h j Hin Ht Hc) as Ho. assert (Ei : hid h = id) by congruence.
+      split; [rewrite <- Ei; apply Hids; assumption|]. left. exists h. auto.
+    + assert (Ei : rid = id) by congruence. subst rid.
+      destruct (Hrid j id Hr) as (Hlt & _). split; [assumption|]. right. assumption.
+  - specialize (Hdead j). rewrite Es in Hdead. specialize (Hdead eq_refl). congruence.
+Qed.
+
+Lemma alive_has_delegate res run w m j s iv d :
+  GInv res run w m -> m_st m j = TAlive s iv d -> exists id, t_delegate (w_tm w j) = Some id.
+Proof.
+  intros H Es. ginv H.
+  destruct (Halive j s iv d Es) as (_ & _ & _ & _ & [(h & Hin & Ht & Hc & Hw) | (rid & Hr & Hd')]).
+  - exists (hid h). eauto.
+  - exists rid. assumption.
+Qed.
+
+Ltac wsimpl := unfold handles, set_delegate, set_n, set_tm, cancel_handle, set_now, set_ready, set_sched, set_scr, redefine, add_timer in *; cbn [w_now w_next w_sched w_ready w_canc w_nt w_tm w_scr w_bind w_nver m_clock m_cur m_st m_ver m_count t_interval t_start t_delegate t_n t_fn0 hid hwhen htgt] in *.
+
+Lemma upd_true_false (f : nat -> bool) id x : upd f id true x = false -> x <> id /\ f x = false.
+Proof.
+  unfold upd. destruct (Nat.eqb x id) eqn:E; [discriminate|]. apply Nat.eqb_neq in E. auto.
+Qed.
+
+(* KGTimerHandler.cancel on a live handler: the loop handle is cancelled, the delegate dropped *)
+Lemma ginv_kill res run w m j id :
+  GInv res run w m -> t_delegate (w_tm w j) = Some id ->
+  GInv res run (set_delegate (cancel_handle w id) j None)
+       (mk_mstate (m_clock m) (m_cur m) (upd (m_st m) j TDead) (m_ver m) (m_count m)).
+Proof.
+  intros H Hd.
+  destruct (delegate_known _ _ _ _ _ _ H Hd) as (s & iv & d & Es & Hlt & Hwho).
+  ginv H.
+  assert (Hj : (j < w_nt w)%nat).
+  { destruct (Nat.lt_ge_cases j (w_nt w)) as [L|G]; [assumption|]. rewrite (Hnone j G) in Es. discriminate. }
+  assert (Huniq : forall h i, In h (w_sched w ++ w_ready w) -> htgt h = TRun i -> hid h = id -> i = j).
+  { intros h i Hin Ht Hi. destruct Hwho as [(h' & Hin' & Ht' & _ & _ & Hi') | Hr].
+    - assert (h = h') by (eapply nodup_map_inj; eauto; congruence). subst h'. congruence.
+    - destruct (Hrid j id Hr) as (_ & _ & Hno & _). exfalso. eapply Hno; eauto. }
+  constructor; wsimpl; try assumption.
+  - intros h i Hin Ht Hc. apply upd_true_false in Hc. destruct Hc as [Hne Hc].
+    destruct (Nat.eq_dec i j) as [->|Hij].
+    + pose proof (Hown h j Hin Ht Hc) as Ho. congruence.
+    + rewrite upd_other by assumption. eauto.
+  - intros i rid Hr. destruct (Hrid i rid Hr) as (A & B & C & D). repeat split; try assumption.
+    intros h Hin Ht. unfold upd. destruct (Nat.eqb (hid h) id); [reflexivity|]. eauto.
+  - intros i s0 iv0 d0 Hs. destruct (Nat.eq_dec i j) as [->|Hij]; [rewrite upd_same in Hs; discriminate|].
+    rewrite upd_other in Hs by assumption. rewrite upd_other by assumption.
+    destruct (Halive i s0 iv0 d0 Hs) as (A & B & C & D & [(h & Hin & Ht & Hc & Hw) | E]).
+    + repeat split; try assumption. left. exists h. repeat split; try assumption.
+      unfold upd. destruct (Nat.eqb (hid h) id) eqn:Eq; [|assumption].
+      apply Nat.eqb_eq in Eq. exfalso. apply Hij. eapply Huniq; eauto.
+    + repeat split; try assumption. right. assumption.
+  - intros i Hs. destruct (Nat.eq_dec i j) as [->|Hij]; [rewrite upd_same; reflexivity|].
+    rewrite upd_other in Hs by assumption. rewrite upd_other by assumption. eauto.
+  - intros i Hi. rewrite upd_other by lia. eauto.
+  - intros id' Hi. unfold upd. destruct (Nat.eqb id' id) eqn:Eq; [apply Nat.eqb_eq in Eq; lia|]. eauto.
+Qed.
